@@ -134,7 +134,7 @@ def rand_buffer(rng):
 
 def gen_factory(rng):
     """random factory from a few graph shapes; every parameter from the PRNG"""
-    shape = rng.choice(["line", "line", "fanout", "fanin", "diamond", "two", "split", "split", "pack", "pack", "pack", "unpack", "cross", "cross", "merge", "spfan", "spfan", "chain2", "fanin3"])
+    shape = rng.choice(["line", "line", "fanout", "fanin", "diamond", "two", "split", "split", "pack", "pack", "pack", "unpack", "cross", "cross", "merge", "spfan", "spfan", "chain2", "fanin3", "fanout3", "fanout3", "loop"])
     edges, nodes, links = [], [], []
     def E(): edges.append(rand_buffer(rng)); return len(edges) - 1
     def N(d): nodes.append(d); return len(nodes) - 1
@@ -249,6 +249,33 @@ def gen_factory(rng):
             a = E(); links.append((a, sidx, m))
             if j == 2: edges[a]["cap"] = 3
         b = E(); links.append((b, m, k))
+    elif shape == "fanout3":
+        # a source (or a machine behind it) with THREE out-edges of capacity 1 and consumers of different speed: the cancel loops of the
+        # push side run over more than two requests, all edges are full at times
+        via_machine = rng.random() < 0.5
+        if via_machine:
+            s = source(1); nodes[s]["iat"] = [1]; m = machine(1, 3); a = E(); links.append((a, s, m)); top = m
+        else:
+            s = source(3); nodes[s]["iat"] = [rng.choice([1, 1, 2])]; top = s
+        if rng.random() < 0.7:
+            nodes[top]["blocking"] = True; nodes[top]["out"] = "FIRST_AVAILABLE"
+        for j in range(3):
+            m2 = N(dict(kind="machine", pd=[rng.choice([1, 2, 3, 5])], wc=1, setup=0, blocking=True, inp="FIRST_AVAILABLE", out="FIRST_AVAILABLE"))
+            k = sink(); b = E(); c = E(); edges[b]["cap"] = 1; edges[b].pop("delays", None); edges[b]["delay"] = 0
+            links += [(b, top, m2), (c, m2, k)]
+    elif shape == "loop":
+        # a closed pack / unpack loop: the pallets AND the items the splitter hands out go back to the combiner (through two merge machines
+        # that also take the initial stock from two sources which stop after a few units): every pallet meets items it has carried before
+        npal = 1; k = rng.choice([1, 2, 2])      # one pallet: the scripted out-edge policy of the splitter (items to edge 1, the empty pallet to edge 0) stays in step
+        ps = psource(1, True); nodes[ps]["iat"] = [1] * npal + [9999]; nodes[ps]["blocking"] = True; nodes[ps]["out"] = "FIRST_AVAILABLE"
+        isr = psource(1, False); nodes[isr]["iat"] = [1] * (k * npal + rng.choice([0, 1])) + [9999]; nodes[isr]["blocking"] = True; nodes[isr]["out"] = "FIRST_AVAILABLE"
+        def merge_m(): return N(dict(kind="machine", pd=[0], wc=1, setup=0, blocking=True, inp="FIRST_AVAILABLE", out="FIRST_AVAILABLE"))
+        mp = merge_m(); mi = merge_m()
+        c = N(dict(kind="combiner", pd=pd(), target=[1, k], setup=0, blocking=True, out="FIRST_AVAILABLE"))
+        sp = N(dict(kind="splitter", pd=pd(), setup=0, blocking=True, inp="FIRST_AVAILABLE", out=[1] * k + [0]))
+        def EB():
+            e = E(); edges[e].pop("delays", None); edges[e]["delay"] = rng.choice([0, 0, 1]); edges[e]["cap"] = 3; edges[e]["mode"] = "FIFO"; return e
+        links += [(EB(), ps, mp), (EB(), isr, mi), (EB(), mp, c), (EB(), mi, c), (EB(), c, sp), (EB(), sp, mp), (EB(), sp, mi)]
     elif shape == "cross":
         # two sources -> one machine with two in-edges and two out-edges -> two sinks
         s1 = source(1); s2 = source(1); m = machine(2, 2); k1 = sink(); k2 = sink()
@@ -264,13 +291,23 @@ def gen_factory(rng):
     else:
         s = source(1); m1 = machine(1, 2); m2 = machine(2, 1); k = sink()
         a = E(); b = E(); c = E(); d = E(); links += [(a, s, m1), (b, m1, m2), (c, m1, m2), (d, m2, k)]
-    if rng.random() < 0.3:
+    if rng.random() < 0.3 and shape != "loop":      # (the loop's scripted splitter policy names its out-edges by position)
         orig = list(links)
         rng.shuffle(links)
         # the order of a combiner's in-edges is part of its recipe: keep it (a wrong order is generated separately)
         comb = [i for i, d in enumerate(nodes) if d["kind"] == "combiner"]
         pos = [i for i, l in enumerate(links) if l[2] in comb]
         for i, l in zip(pos, [l for l in orig if l[2] in comb]): links[i] = l
+    # a quarter of the factories assign the selection policies AFTER construction (the constructor sees the defaults), as the library's own
+    # examples do: the policy in force is the one the attribute holds when the run starts
+    if rng.random() < 0.25:
+        for d in nodes:
+            if d["kind"] != "sink" and rng.random() < 0.7:
+                d["late"] = "none" if (d["kind"] == "source" and rng.random() < 0.4) else "default"
+    # … and every other source with several out-edges does (the routing then shows whether the assigned policy is the one in force)
+    for i, d in enumerate(nodes):
+        if d["kind"] == "source" and sum(1 for l in links if l[1] == i) >= 2 and "late" not in d and rng.random() < 0.5:
+            d["late"] = "default"
     cfg = dict(edges=edges, nodes=nodes, links=links, horizon=rng.choice([20, 40, 60]), shape=shape,
                rseed=rng.randrange(10 ** 6))
     if shape in ("pack", "unpack") and invalid: cfg["invalid"] = invalid   # outside the documented domain: the error named is the rejection
